@@ -410,7 +410,11 @@ func descD(v ssa.Value, depth int) string {
 		}
 		return "phi(" + strings.Join(es, "|") + ")"
 	case *ssa.Alloc:
-		return "new:" + typeShort(x.Type().(*types.Pointer).Elem())
+		et := x.Type().(*types.Pointer).Elem()
+		if n, ok := et.(*types.Named); ok {
+			et = canonNamed(n)
+		}
+		return "new:" + typeShort(et)
 	case *ssa.MakeInterface:
 		return descD(x.X, depth+1)
 	case *ssa.ChangeType:
